@@ -197,25 +197,48 @@ Definition op_write_page_j (s : st) (pgno : N) (p : pg) : outcome * st :=
   if negb (writeable s) then (Failed, s)
   else (Done, write_db_page (with_dirty s (insert_sorted pgno (dirty s))) pgno p).
 
+(* the file system fills a gap below a page written further on with zeros: the file changes, LiteFS sees nothing *)
+Definition op_zero_fill (s : st) (pgno : N) (p : pg) : outcome * st :=
+  (Done, with_file s (set_file (dbfile s) (N.to_nat (pgno - 1)) p)).
+
 (* TruncateDatabase db.go:986 *)
 Definition op_truncate (s : st) (n : N) : outcome * st :=
   if negb (n =? pageN s) then (Failed, s) else (Done, truncate_db s n).
 
 Definition file_pg (s : st) (pgno : N) : option pg := nth_error (dbfile s) (N.to_nat (pgno - 1)).
 
-(* the page loop of CommitJournal db.go:2000-2036 *)
-Fixpoint journal_pages (s : st) (commit : N) (pgnos : list N) : option (list (N * pg)) :=
+(* consecutive page numbers a, a+1, ... (n of them) *)
+Fixpoint upfrom (a : N) (n : nat) : list N :=
+  match n with O => [] | S n' => a :: upfrom (a + 1) n' end.
+
+(* a page the database gains in this transaction that was never written through LiteFS - no checksum is kept for it:
+   SQLite leaves out a page it allocated and freed again (a free-list leaf), the file system fills the gap with zeros.
+   (Not "not in the dirty set": a transaction LiteFS rolled back itself leaves its pages listed there.) *)
+Definition unwritten (s : st) (p : N) : bool := (pageN s <? p) && (db_page_chk s p =? 0).
+
+(* the sorted page list of CommitJournal: the dirty pages within the new size, and every page between the old and
+   the new size whether written or not *)
+Definition journal_pgnos (s : st) (commit : N) : list N :=
+  filter (fun p => (p <=? commit) && (p <=? pageN s)) (dirty s) ++ upfrom (pageN s + 1) (N.to_nat (commit - pageN s)).
+
+(* the page loop of CommitJournal: every page is read back from the database file and has to match the checksum
+   kept for it; for an unwritten page the checksum is taken from what the file holds *)
+Fixpoint journal_pages (s : st) (commit : N) (pgnos : list N) : option (list (N * pg)) * st :=
   match pgnos with
-  | [] => Some []
+  | [] => (Some [], s)
   | p :: r =>
     if p =? lockpg s then journal_pages s commit r
     else match file_pg s p with
-         | None => None                                  (* cannot read database page *)
+         | None => (None, s)                              (* cannot read database page *)
          | Some q =>
-           let '(c, ok) := page_chk s p commit [] in
+           let s1 := if unwritten s p then set_page_chk s p (pg_h q) else s in
+           let '(c, ok) := page_chk s1 p commit [] in
            if ok && (c =? pg_h q) then
-             match journal_pages s commit r with Some l => Some ((p, q) :: l) | None => None end
-           else None                                     (* checksum not found / does not match *)
+             match journal_pages s1 commit r with
+             | (Some l, s2) => (Some ((p, q) :: l), s2)
+             | (None, s2) => (None, s2)
+             end
+           else (None, s1)                                (* checksum not found / does not match *)
          end
   end.
 
@@ -236,12 +259,12 @@ Definition new_ltx (s : st) (commit post : N) (pages : list (N * pg)) : ltxrec :
 Definition op_commit_journal (s : st) (commit : N) : outcome * st :=
   if negb (writeable s) then (Failed, s)
   else
-    let pgnos := filter (fun p => p <=? commit) (dirty s) in
+    let pgnos := journal_pgnos s commit in
     let s0 := with_wal s [] (wal_latest s) (wal_file s) in       (* db.wal.chksums = make(...) *)
     match journal_pages s0 commit pgnos with
-    | None => (Failed, s0)
-    | Some pages =>
-      let s1 := clear_after_commit s0 (length (chk_pages s0)) commit in
+    | (None, sj) => (Failed, sj)
+    | (Some pages, sj) =>
+      let s1 := clear_after_commit sj (length (chk_pages sj)) commit in
       match checksum s1 commit [] with
       | (None, s2) => (Failed, s2)
       | (Some post, s2) =>
@@ -500,9 +523,10 @@ Inductive op :=
 | OCommitJournalFail (commit : N)   (* a journal commit that fails inside LiteFS before the transaction file is published
                                         (db.go CommitJournal: create / encode / sync / forward / rename error): nothing it touched
                                         survives - the cleared checksums of pages beyond the new size are put back *)
-| OWriteJ (pgno : N) (p : pg).        (* a page write inside a rollback-journal transaction (the journal's header has been written):
+| OWriteJ (pgno : N) (p : pg)        (* a page write inside a rollback-journal transaction (the journal's header has been written):
                                          tracked as dirty whatever journal mode the header names - SQLite leaves WAL mode by
                                          rewriting page 1 under a rollback journal while the header still says WAL *)
+| OZeroFill (pgno : N) (p : pg).      (* a page inside a growing database that SQLite never writes: zeros put there by the file system *)
 
 Definition set_writeable (s : st) (b : bool) : st :=
   mkSt b (lockpg s) (dbfile s) (pageN s) (wal_mode s) (chk_pages s) (chk_blocks s) (wal_chk s) (wal_latest s)
@@ -512,7 +536,11 @@ Definition step (s : st) (o : op) : outcome * st :=
   match o with
   | OWrite p q => op_write_page s p q
   | OTruncate n => op_truncate s n
-  | OCommitJournal c => op_commit_journal s c
+  | OCommitJournal c =>
+      (* a database file with nothing in it (the transaction that would have created the database was rolled back, SQLite
+         has cut the file to nothing): there is no size to read, the journal is invalidated and nothing is published *)
+      if writeable s && (pageN s =? 0) && (match dbfile s with [] => true | _ => false end) then op_invalidate_journal s
+      else op_commit_journal s c
   | OInvalidateJournal => op_invalidate_journal s
   | OWalHeader => op_wal_header s
   | OWalTruncate => op_wal_reset s true
@@ -525,6 +553,7 @@ Definition step (s : st) (o : op) : outcome * st :=
   | OImport pages commit ok => op_import s pages commit ok
   | OCommitJournalFail _ => (Done, s)
   | OWriteJ p q => op_write_page_j s p q
+  | OZeroFill p q => op_zero_fill s p q
   | ORetention ages backup hwm =>
       (* ages: one flag per file of the directory, in order; a file is identified by its max TXID *)
       let tagged := combine (map l_max (ltxdir s)) ages in
